@@ -25,7 +25,7 @@ for p in props:
         na.append({"property_id": pid, "reason": (r or {}).get("reason", reg["default_reason"])})
 m = {
     "version": 1,
-    "setup_cmd": "cd /verif && tools/lk build",
+    "setup_cmd": "cd /verif && tools/setup.sh",
     "hooks": {
         "guard": "UFTRACE_VERIF",
         "enable": "checks copy /repo's working tree to a scratch directory and compile the sources they need with -DUFTRACE_VERIF; no guarded source change exists in /repo so far (harnesses #include/link the sources and interpose libc instead)",
